@@ -1974,6 +1974,44 @@ fn derive_input_handler(ast: DeriveInput) -> syn::Result<proc_macro2::TokenStrea
         }
     }
 
+    // `#[educe]` and `#[educe = ..]` are refused on variants and fields as they are on the type (the
+    // attribute parsers of the traits only look at the list form and would skip them silently)
+    {
+        let check = |attributes: &[syn::Attribute]| -> syn::Result<()> {
+            for attr in attributes {
+                let path = attr.path();
+
+                if path.is_ident("educe") && !matches!(&attr.meta, Meta::List(_)) {
+                    return Err(panic::educe_format_incorrect(path.get_ident().unwrap()));
+                }
+            }
+
+            Ok(())
+        };
+
+        match &ast.data {
+            syn::Data::Struct(data) => {
+                for field in data.fields.iter() {
+                    check(&field.attrs)?;
+                }
+            },
+            syn::Data::Enum(data) => {
+                for variant in data.variants.iter() {
+                    check(&variant.attrs)?;
+
+                    for field in variant.fields.iter() {
+                        check(&field.attrs)?;
+                    }
+                }
+            },
+            syn::Data::Union(data) => {
+                for field in data.fields.named.iter() {
+                    check(&field.attrs)?;
+                }
+            },
+        }
+    }
+
     let traits: Vec<Trait> = trait_meta_map.keys().copied().collect();
 
     #[cfg(feature = "Debug")]
